@@ -512,7 +512,7 @@ func init() {
 				}},
 				// uses next to postfix operators, loops inside component files and quoted quotes: every use shows its own arguments,
 				// the page's variables and loop object are what they were
-				{Name: "uses-among-operators-loops-and-quotes", Exhaustive: true, N: 7, Run: func(c *core.Ctx, i int) {
+				{Name: "uses-among-operators-loops-and-quotes", Exhaustive: true, N: 8, Run: func(c *core.Ctx, i int) {
 					var files map[string]string
 					var data map[string]any
 					var want string
@@ -538,6 +538,9 @@ func init() {
 					case 5: // integers under postfix operators, nested uses
 						files = map[string]string{"components/in.tw": "<{{ n++ }}{{ n }}@slot>", "page.tw": "{{ n = 1 }}@component(\"~in\")@slot@component(\"~in\", {n: n--})@end@end{{ n }}"}
 						want = "<21<10>>1"
+					case 6: // numbers written with leading zeros, as arguments and inside the component file
+						files = map[string]string{"components/clock.tw": "<{{ h }}:{{ m }}:{{ s }}:{{ f }}:{{ z }}|@if(h == 10)ten@end|{{ h + m + 010 }}>", "page.tw": "@component(\"~clock\", {h: 010, m: 07, s: 09, f: 00.50, z: 000})@component(\"~clock\", {h: 0010, m: 0, s: -08, f: 1.0, z: 1})"}
+						want = "<10:7:9:0.5:0|ten|27><10:0:-8:1.0:1|ten|20>"
 					default: // a float decremented in every pass of a loop of the page and handed to the use
 						files = map[string]string{"components/show.tw": "<{{ p }}>", "page.tw": "{{ price = 2.5 }}@each(k in [1, 2, 3])@component(\"~show\", {p: price--}){{ price }};@end"}
 						want = "<1.5>2.5;<1.5>2.5;<1.5>2.5;"
